@@ -2022,6 +2022,10 @@ class StreamToQueue(StreamResult):
         """Adjust route_code on the way through."""
         if route_code is None:
             return self.routing_code
+        if self.routing_code is None:
+            # No prefix to add (ConcurrentStreamTestSuite documents None as a
+            # valid routing code).
+            return route_code
         return self.routing_code + "/" + route_code
 
 
